@@ -608,6 +608,22 @@ func liftToCallers(p *Prog, fn *ssa.Function, o obligation, failed []residual, o
 			a, b := g.a.subst(m), g.b.subst(m)
 			ok, res := p.ProveLERes(cfi, cs.Instr, facts, a, b, g.strict, 0)
 			if !ok {
+				// the call may sit behind a multi-way case (`case A, B, C: f(x)`): each way in has its own facts
+				if sets := cfi.pathFactSets(cs.Instr.Block()); len(sets) > 1 {
+					allOK := true
+					for _, set := range sets {
+						alt := append(append([]Atom{}, facts...), cfi.withImports(set)...)
+						if ok2, _ := p.ProveLERes(cfi, cs.Instr, alt, a, b, g.strict, 0); !ok2 {
+							allOK = false
+							break
+						}
+					}
+					if allOK {
+						ok = true
+					}
+				}
+			}
+			if !ok {
 				if ok2, _ := liftToCallers(p, cs.Caller, o, res, opts, depth+1); !ok2 {
 					return false, ""
 				}
